@@ -124,11 +124,27 @@ Definition vmodel_parts (attr_value : node) (is_component : bool) (argument : op
   | _ => (attr_value, argument, Some (set_of_list splitted))
   end.
 
+(* expressions `(value) = $event` can assign to *)
+Definition is_assignable (v : node) : bool :=
+  match v with
+  | Ident _ _ _ | Member _ _ | Paren _ => true
+  | NObj _ =>
+      let t := ntype v in
+      sq "SuperPropExpression" t || sq "TsAsExpression" t || sq "TsNonNullExpression" t
+      || sq "TsSatisfiesExpression" t || sq "TsTypeAssertion" t
+  | _ => false
+  end.
+
+Definition vmodel_target_check (v : node) (s : st) : st :=
+  if is_assignable v then s
+  else add_diag "`v-model` must be bound to an assignable expression (identifier or member expression)." s.
+
 Definition parse_v_model (value : node) (is_component : bool) (argument : option node)
            (splitted : list str) (s : st) : directive * st :=
   let '(attr_value, s) := vmodel_attr_value value s in
   let s := vmodel_first_check attr_value s in
   let '(value', argument, modifiers) := vmodel_parts attr_value is_component argument splitted in
+  let s := vmodel_target_check value' s in
   (DVModel argument
            (if negb is_component && nonempty_mods modifiers then or_void0 argument else argument)
            (match modifiers with Some m => transform_modifiers m is_component | None => None end)
